@@ -129,6 +129,24 @@ class Ctx:
         }
 
 
+CASE_TIMEOUT_S = int(os.environ.get("PMV_CASE_TIMEOUT", "300"))
+
+
+class CaseTimeout(BaseException):
+    pass
+
+
+def _on_alarm(signum, frame):
+    raise CaseTimeout()
+
+
+try:
+    import signal
+    signal.signal(signal.SIGALRM, _on_alarm)
+    _alarm = True
+except Exception:  # not in the main thread / not on this platform
+    _alarm = False
+
 OBSERVE_QUOTA = 25   # cases per monitor (per shard) executed under the branch-arm observer ...
 OBSERVE_SECONDS = 0.7  # ... and at most this much wall time per monitor and shard
 
@@ -157,10 +175,23 @@ def run_cases(mod, ctx, only=None, observer=None):
                                 else repr(case)[:600] + "..."})
         t_obs = time.time() if observing else None
         try:
+            if _alarm:
+                signal.alarm(CASE_TIMEOUT_S)   # a hanging case (e.g. a parser that never returns) must not eat the watchdog
             fn(ctx, case)
+            if _alarm:
+                signal.alarm(0)
             if t_obs is not None:
                 obs_time[name] = obs_time.get(name, 0.0) + time.time() - t_obs
+        except CaseTimeout:
+            ctx.cover["case_timeout"] = ctx.cover.get("case_timeout", 0) + 1
+            ctx.cover["harness_error"] = ctx.cover.get("harness_error", 0) + 1
+            ctx.notes.setdefault("harness_errors", [])
+            if len(ctx.notes["harness_errors"]) < 5:
+                ctx.notes["harness_errors"].append({"monitor": name, "case": repr(case)[:300],
+                                                    "exc": "case exceeded %d s (inconclusive, not a verdict)" % CASE_TIMEOUT_S})
         except Exception as e:  # a monitor bug or an escaped exception of the SUT
+            if _alarm:
+                signal.alarm(0)
             # the monitors catch SUT exceptions themselves where the property
             # speaks about them; anything arriving here is a harness error
             ctx.cover["harness_error"] = ctx.cover.get("harness_error", 0) + 1
